@@ -20,77 +20,13 @@ import (
 	"go/format"
 	"go/parser"
 	"go/token"
-
-	"golang.org/x/tools/go/ast/astutil"
 )
 
 type delit struct {
-	n    int // temporaries created
-	done int // literals rewritten
-}
-
-// iife returns the literal if e is `func() (…) {…}()` in rewritable form, with its leading statements and result expressions.
-func (d *delit) iife(e ast.Expr) (lit *ast.FuncLit, body []ast.Stmt, results []ast.Expr, ok bool) {
-	call, isCall := e.(*ast.CallExpr)
-	if !isCall || len(call.Args) != 0 {
-		return nil, nil, nil, false
-	}
-	fl, isLit := call.Fun.(*ast.FuncLit)
-	if !isLit {
-		if p, isP := call.Fun.(*ast.ParenExpr); isP {
-			fl, isLit = p.X.(*ast.FuncLit)
-		}
-	}
-	if !isLit || fl.Type.Params != nil && len(fl.Type.Params.List) > 0 || fl.Type.TypeParams != nil {
-		return nil, nil, nil, false
-	}
-	stmts := fl.Body.List
-	nres := 0
-	if fl.Type.Results != nil {
-		for _, f := range fl.Type.Results.List {
-			if len(f.Names) > 0 {
-				return nil, nil, nil, false // named results: a bare return would need them
-			}
-			nres++
-		}
-	}
-	var res []ast.Expr
-	if nres > 0 {
-		if len(stmts) == 0 {
-			return nil, nil, nil, false
-		}
-		r, isRet := stmts[len(stmts)-1].(*ast.ReturnStmt)
-		if !isRet || len(r.Results) == 0 {
-			return nil, nil, nil, false
-		}
-		res = r.Results
-		stmts = stmts[:len(stmts)-1]
-	} else if len(stmts) > 0 {
-		if r, isRet := stmts[len(stmts)-1].(*ast.ReturnStmt); isRet && len(r.Results) == 0 {
-			stmts = stmts[:len(stmts)-1]
-		}
-	}
-	// no other return, no defer, no recover in the remaining statements (nested literals are their own world)
-	bad := false
-	for _, s := range stmts {
-		ast.Inspect(s, func(n ast.Node) bool {
-			switch x := n.(type) {
-			case *ast.FuncLit:
-				return false
-			case *ast.ReturnStmt, *ast.DeferStmt:
-				bad = true
-			case *ast.CallExpr:
-				if id, ok := x.Fun.(*ast.Ident); ok && id.Name == "recover" {
-					bad = true
-				}
-			}
-			return !bad
-		})
-	}
-	if bad {
-		return nil, nil, nil, false
-	}
-	return fl, stmts, res, true
+	n     int    // temporaries created
+	done  int    // literals rewritten
+	curFn string // "package|receiver|name" of the declaration being rewritten
+	bare  []ast.Expr // named results of the literal being lowered (what a bare return yields)
 }
 
 func (d *delit) tmp() *ast.Ident {
@@ -103,9 +39,15 @@ func (d *delit) declTemps(fl *ast.FuncLit) ([]ast.Stmt, []ast.Expr) {
 	var decls []ast.Stmt
 	var ids []ast.Expr
 	for _, f := range fl.Type.Results.List {
-		t := d.tmp()
-		ids = append(ids, t)
-		decls = append(decls, &ast.DeclStmt{Decl: &ast.GenDecl{Tok: token.VAR, Specs: []ast.Spec{&ast.ValueSpec{Names: []*ast.Ident{t}, Type: f.Type}}}})
+		k := len(f.Names)
+		if k == 0 {
+			k = 1
+		}
+		for ; k > 0; k-- {
+			t := d.tmp()
+			ids = append(ids, t)
+			decls = append(decls, &ast.DeclStmt{Decl: &ast.GenDecl{Tok: token.VAR, Specs: []ast.Spec{&ast.ValueSpec{Names: []*ast.Ident{t}, Type: f.Type}}}})
+		}
 	}
 	return decls, ids
 }
@@ -126,118 +68,43 @@ func nResults(fl *ast.FuncLit) int {
 	if fl.Type.Results == nil {
 		return 0
 	}
-	return len(fl.Type.Results.List)
-}
-
-// lower recognises a rewritable literal call and returns a generator of the statements that replace it: given the
-// expressions that receive its results (nil: results discarded) it yields the literal's body as plain statements.
-// The simple form (one trailing return) becomes `S…; targets = e`. A body with several returns becomes
-//   L: switch { default: S… }   with every `return e` replaced by `{ targets = e; break L }`.
-func (d *delit) lower(e ast.Expr) (*ast.FuncLit, func(targets []ast.Expr) []ast.Stmt, bool) {
-	if fl, body, res, ok := d.iife(e); ok {
-		return fl, func(targets []ast.Expr) []ast.Stmt {
-			out := append([]ast.Stmt{}, body...)
-			if len(res) > 0 {
-				if targets == nil {
-					targets = blanks(nResults(fl))
-				}
-				out = append(out, assign(targets, token.ASSIGN, res))
-			}
-			return out
-		}, true
-	}
-	fl, ok := d.iifeMulti(e)
-	if !ok {
-		return nil, nil, false
-	}
-	return fl, func(targets []ast.Expr) []ast.Stmt {
-		d.n++
-		label := ast.NewIdent(fmt.Sprintf("inlL%d", d.n))
-		body := &ast.BlockStmt{List: fl.Body.List}
-		astutil.Apply(body, func(cur *astutil.Cursor) bool {
-			switch x := cur.Node().(type) {
-			case *ast.FuncLit:
-				return false
-			case *ast.ReturnStmt:
-				var blk []ast.Stmt
-				if len(x.Results) > 0 {
-					t := targets
-					if t == nil {
-						t = blanks(nResults(fl))
-					}
-					blk = append(blk, assign(t, token.ASSIGN, x.Results))
-				}
-				blk = append(blk, &ast.BranchStmt{Tok: token.BREAK, Label: label})
-				cur.Replace(&ast.BlockStmt{List: blk})
-				return false
-			}
-			return true
-		}, nil)
-		sw := &ast.SwitchStmt{Body: &ast.BlockStmt{List: []ast.Stmt{&ast.CaseClause{List: nil, Body: body.List}}}}
-		return []ast.Stmt{&ast.LabeledStmt{Label: label, Stmt: sw}}
-	}, true
-}
-
-// iifeMulti: a parameterless literal called on the spot, without named results, defer or recover, with at least one
-// return (any number, anywhere outside nested literals).
-func (d *delit) iifeMulti(e ast.Expr) (*ast.FuncLit, bool) {
-	call, isCall := e.(*ast.CallExpr)
-	if !isCall || len(call.Args) != 0 {
-		return nil, false
-	}
-	fl, isLit := call.Fun.(*ast.FuncLit)
-	if !isLit {
-		if p, isP := call.Fun.(*ast.ParenExpr); isP {
-			fl, isLit = p.X.(*ast.FuncLit)
+	n := 0
+	for _, f := range fl.Type.Results.List {
+		if len(f.Names) == 0 {
+			n++
+		} else {
+			n += len(f.Names)
 		}
 	}
-	if !isLit || fl.Type.Params != nil && len(fl.Type.Params.List) > 0 || fl.Type.TypeParams != nil {
-		return nil, false
-	}
-	if fl.Type.Results != nil {
-		for _, f := range fl.Type.Results.List {
-			if len(f.Names) > 0 {
-				return nil, false
-			}
-		}
-	}
-	bad, nret := false, 0
-	ast.Inspect(fl.Body, func(n ast.Node) bool {
-		switch x := n.(type) {
-		case *ast.FuncLit:
-			return false
-		case *ast.ReturnStmt:
-			nret++
-		case *ast.DeferStmt:
-			bad = true
-		case *ast.BranchStmt:
-			if x.Tok == token.GOTO {
-				bad = true
-			}
-		case *ast.CallExpr:
-			if id, ok := x.Fun.(*ast.Ident); ok && id.Name == "recover" {
-				bad = true
-			}
-		}
-		return !bad
-	})
-	if bad || nret == 0 {
-		return nil, false
-	}
-	// a literal with results must end in a return (otherwise it would not compile), so falling out of the switch is
-	// impossible for it; a literal without results may fall out — that is the normal end of the block
-	return fl, true
+	return n
 }
 
 // rewriteStmt returns the replacement statements for s, or nil when s is left alone.
 func (d *delit) rewriteStmt(s ast.Stmt) []ast.Stmt {
 	switch x := s.(type) {
+	case *ast.ForStmt:
+		if r := d.canonLoop(x); r != nil {
+			d.done++
+			return []ast.Stmt{r}
+		}
+	case *ast.LabeledStmt:
+		if fs, isFor := x.Stmt.(*ast.ForStmt); isFor {
+			if r := d.canonLoop(fs); r != nil {
+				d.done++
+				x.Stmt = r
+				return []ast.Stmt{x}
+			}
+		}
 	case *ast.ExprStmt:
 		if _, gen, ok := d.lower(x.X); ok {
 			d.done++
 			return []ast.Stmt{&ast.BlockStmt{List: gen(nil)}}
 		}
 	case *ast.AssignStmt:
+		if r := d.canonMinMax(x); r != nil {
+			d.done++
+			return r
+		}
 		if len(x.Rhs) == 1 && (x.Tok == token.DEFINE || x.Tok == token.ASSIGN) {
 			if fl, gen, ok := d.lower(x.Rhs[0]); ok && nResults(fl) == len(x.Lhs) && nResults(fl) > 0 {
 				d.done++
@@ -315,6 +182,8 @@ func deliteralize(filename string, src []byte) ([]byte, int) {
 		before := d.done
 		ast.Inspect(f, func(n ast.Node) bool {
 			switch x := n.(type) {
+			case *ast.FuncDecl:
+				d.curFn = f.Name.Name + "|" + recvName(x) + "|" + x.Name.Name
 			case *ast.BlockStmt:
 				x.List = d.rewriteList(x.List)
 			case *ast.CaseClause:
